@@ -32,13 +32,14 @@ FUNCTIONS_ENCODED = [
 ]
 BOUNDS = {
     "quick": {"H06a": "1-2 parameters, annotations atom / union / T / list[T] (T plain, bounded, constrained), defaults fitting or not fitting, arguments atom / union / Any / the literal None / omitted; every preorder on 3 atoms",
-              "H06b": "1-2 parameters from 8 real parameter types, literal arguments of 6 kinds with unbounded int payloads"},
+              "H06b": "1-2 parameters from 8 real parameter types, literal arguments of 6 kinds with unbounded int payloads",
+              "H06c": "signatures with <= 2 parameters over all kinds (positional-only, positional-or-keyword, keyword-only, typed *args, typed **kwargs), defaults, names a / b; calls with 0..2 positionals and <= 2 keywords from {a, b, args, kwargs}; every preorder on 3 atoms (rotating sample; name-collision shapes always)"},
     "thorough": {"H06a": "up to 3 parameters", "H06b": "same"},
 }
 OUTSIDE = ["methods / classmethods / constructors / dataclasses (signature construction needs runtime objects and the visitor)", "impl functions, allow_call evaluation",
            "the rendering of the message"]
 STUBS = ["stub atoms with a symbolic preorder", "_CanAssignBasedContext with the real Checker", "coarse-hash stub (H06b)"]
-ASSUMPTIONS = ["reference acceptance over the relation (vf/common.ref_accepts) and membership model vf/member.py"]
+ASSUMPTIONS = ["H06c: where an argument lands is read off a real call of a generated def with the same header", "reference acceptance over the relation (vf/common.ref_accepts) and membership model vf/member.py"]
 
 NONE = KnownValue(None)
 
@@ -52,6 +53,13 @@ def prepare(template, data):
         if template == "h06_atoms":
             h06_atoms(False, False, False, False, False, False)
             h06_atoms(True, True, True, True, True, True)
+        elif template == "h06_kinds":
+            global _KFN
+            from vf.props.c07 import _fn
+
+            _KFN = _fn(data["spec"], "return dict(locals())")
+            h06_kinds(False, False, False, False, False, False)
+            h06_kinds(True, True, True, True, True, True)
         else:
             h06_real(0, 1, 2, 0, 1, "a")
     finally:
@@ -143,6 +151,110 @@ def h06_atoms(b0: bool, b1: bool, b2: bool, b3: bool, b4: bool, b5: bool) -> boo
     return fin(True)
 
 
+# ----------------------------------------------------------------------------------------
+# H06c: every parameter kind, typed *args / **kwargs, keywords whose names collide with positional-only or
+# variadic parameters.  Where an argument lands is decided by CPython itself (a generated def with the same
+# header is really called with marker objects and returns its locals()).
+# ----------------------------------------------------------------------------------------
+
+_KFN = None
+KW_NAMES = ["a", "b", "args", "kwargs"]
+
+
+def _owner(locs, spec, marker):
+    for i, (nm, k, d) in enumerate(spec):
+        v = locs.get(nm)
+        if k == 2:
+            if isinstance(v, tuple) and marker in v:
+                return i
+        elif k == 4:
+            if isinstance(v, dict) and marker in v.values():
+                return i
+        elif v is not None and type(v) is int and v == marker:
+            return i
+    return None
+
+
+def h06_kinds(b0: bool, b1: bool, b2: bool, b3: bool, b4: bool, b5: bool) -> bool:
+    """
+    post: _
+    """
+    if excluded(b0=b0, b1=b1, b2=b2, b3=b3, b4=b4, b5=b5):
+        return skip()
+    data = G.case
+    rel = Rel(3, (b0, b1, b2, b3, b4, b5))
+    atoms = [Atom(i, rel) for i in range(3)]
+    spec = data["spec"]
+    npos, kws, shift = data["npos"], data["kws"], data["shift"]
+    K = ParameterKind
+    from pyanalyze.value import TypedValue
+
+    sp = []
+    for i, (nm, k, d) in enumerate(spec):
+        ann = atoms[i % 3]
+        if k == 2:
+            ann = GenericValue(tuple, [ann])
+        elif k == 4:
+            ann = GenericValue(dict, [TypedValue(str), ann])
+        # a default that fits the annotation (the property is about passed arguments)
+        sp.append(SigParameter(nm, K(k), annotation=ann, default=atoms[i % 3] if d else None))
+    sig = Signature.make(sp, atoms[2])
+    pos_atoms = [(j + shift) % 3 for j in range(npos)]
+    kw_atoms = [(KW_NAMES.index(nm) + 1 + shift) % 3 for nm in kws]
+    call_args = [(Composite(atoms[a]), None) for a in pos_atoms] + [(Composite(atoms[a]), nm) for nm, a in zip(kws, kw_atoms)]
+    ctx = _CanAssignBasedContext(get_checker())
+    actual = preprocess_args(call_args, ctx)
+    if actual is None:
+        return fin(False)
+    ret = sig.check_call_preprocessed(actual, ctx)
+    diagnosed = bool(ctx.errors) or ret.is_error
+    # reference: CPython's binding of the same shape, then one membership test per argument
+    try:
+        locs = _KFN(*range(npos), **{nm: 100 + j for j, nm in enumerate(kws)})
+    except TypeError:
+        return fin(diagnosed)
+    want = False
+    for marker, a in list(zip(range(npos), pos_atoms)) + [(100 + j, a) for j, a in enumerate(kw_atoms)]:
+        i = _owner(locs, spec, marker)
+        if i is None:
+            return fin(False)
+        if not rel.accepts(i % 3, a):
+            want = True
+    if diagnosed != want:
+        return fin(False)
+    if not diagnosed:
+        return fin(ret.return_value == atoms[2])
+    return fin(True)
+
+
+def _kinds_cases(tier: str, seed: int) -> List[Case]:
+    import zlib
+
+    from vf.props.c07 import _slabel, _specs
+
+    out = []
+    quick = tier == "quick"
+    for spec in _specs(2, ("a", "b")):
+        if not spec:
+            continue
+        names = [nm for nm, k, d in spec]
+        for npos in (0, 1, 2):
+            for r in (0, 1, 2):
+                for kws in itertools.combinations(KW_NAMES, r):
+                    for shift in (0, 1, 2):
+                        lab = f"k:{_slabel(spec)}<-{npos}{''.join(',' + k + '=' for k in kws)}|s{shift}"
+                        # a keyword named like a positional-only or variadic parameter of the signature is routed
+                        # into **kwargs by CPython: always included when the signature can take it
+                        collide = any(nm in kws and k in (0, 2, 4) for nm, k, d in spec) and any(k == 4 for _, k, _ in spec)
+                        if collide and shift != 1 and quick:
+                            continue
+                        if not collide and (zlib.crc32(lab.encode()) + seed) % (40 if quick else 4) != 0:
+                            continue
+                        out.append(Case("h06_kinds", lab, {"spec": spec, "npos": npos, "kws": list(kws), "shift": shift},
+                                        timeout=60 if quick else 180, twin=True, vacuous_ok=True))
+    return out
+
+
 REAL_TYPES = [("int",), ("lit", M.P0), ("gt", M.P0), ("union", ("int",), ("none",)), ("str",), ("list", ("int",)),
               ("tuple", ("int",), ("str",)), ("union", ("lit", M.P0), ("lit", M.P1)), ("float",), ("bool",)]
 REAL_ARGS = ["int", "bool", "str", "none", "list1", "tuple_is"]
@@ -231,6 +343,7 @@ def cases(tier: str, seed: int) -> List[Case]:
                 out.append(Case("h06_atoms", dl, {"params": [[list(pa[0]), None], [list(pa[1]), "fit2"]], "tv": ["plain"],
                                                   "args": [a0, "omit"], "ret": list(ret)},
                                 timeout=90 if quick else 240, twin=True, vacuous_ok=True))
+    out += _kinds_cases(tier, seed)
     # real constructors
     for t in REAL_TYPES:
         for k in REAL_ARGS:
